@@ -33,6 +33,8 @@ def run(prog: Program, rep: Report):
     rep.attempt(lambda: rule_mixin_surface(prog, rep, "C07.R11", [cf.cls]))
     from .cachefam import rule_accepts_capacity
     rep.attempt(lambda: rule_accepts_capacity(prog, rep, cf, "C07.R14"))
+    from .cachefam import rule_failed_lookup_noop
+    rep.attempt(lambda: rule_failed_lookup_noop(prog, rep, cf, "C07.R15"))
     from .cachefam import rule_value_parametric
     item_cls = prog.maybe_cls("Item", CACHES_MOD)
     vfields = set(_dataclass_fields(item_cls)) - {count_field} if item_cls is not None else set()
